@@ -338,3 +338,73 @@ func (r *rig) c04Order() string {
 	}
 	return ""
 }
+
+// c07Chain: "the ordering chain continues from the files handled before the crash". For an
+// ordered tag a file that is not the first of its group announces the file that
+// immediately precedes it in the group's order, unless the sender knows that file to be
+// delivered: it was told 'passed' for it, or it was told 'waiting' and the receiver's
+// partial listing (asked by this incarnation) no longer has it.
+func (r *rig) c07Chain() string {
+	if !r.conf.Ordered {
+		return ""
+	}
+	type ent struct {
+		name string
+		age  int
+	}
+	groups := map[string][]ent{}
+	for _, f := range r.conf.Files {
+		g := strings.SplitN(f.Name, "/", 2)[0]
+		groups[g] = append(groups[g], ent{f.Name, f.Age})
+	}
+	earlier := map[string][]string{}
+	for _, es := range groups {
+		sort.Slice(es, func(i, j int) bool { return es[i].age > es[j].age })
+		for i, e := range es {
+			for _, x := range es[:i] {
+				earlier[e.name] = append(earlier[e.name], x.name)
+			}
+		}
+	}
+	for _, w := range r.wire {
+		if w.Kind != "data" {
+			continue
+		}
+		for _, p := range w.Parts {
+			if len(earlier[p.Name]) == 0 || r.changed[p.Name] {
+				continue
+			}
+			// the file that immediately precedes it in its group
+			x := earlier[p.Name][len(earlier[p.Name])-1]
+			if p.Prev == x || r.changed[x] {
+				continue
+			}
+			safe := false
+			listed := false
+			for _, v := range r.wire {
+				if v.At > w.At {
+					break
+				}
+				if v.Kind == "partials" && v.Gen == w.Gen && v.Err == "" {
+					for k := range v.Listed {
+						if strings.HasPrefix(k, x+" ") {
+							listed = true
+						}
+					}
+				}
+			}
+			for _, v := range r.wire {
+				if v.At > w.At || v.Kind != "validate" || v.Err != "" {
+					continue
+				}
+				if c, ok := v.Answers[x]; ok && (c == 2 || (c == 3 && w.Gen > 0 && !listed)) {
+					safe = true
+				}
+			}
+			if !safe {
+				return fmt.Sprintf("%s is announced with predecessor %q (request %s at %.3fs, incarnation %d) although %s, which immediately precedes it in its group, is not known to be delivered", p.Name, p.Prev, sig(w.Parts), w.At.Seconds(), w.Gen, x)
+			}
+		}
+	}
+	return ""
+}
